@@ -19,17 +19,18 @@ import (
 
 // Spec describes a container to build.
 type Spec struct {
-	Kind    string `json:"kind"`             // map | mapof | cache | cacheof
-	Key     string `json:"keytype,omitempty"` // for *of kinds: int | string | struct
-	Hasher  string `json:"hasher,omitempty"`  // mapof only: "" default | const | samebucket | sameh2 | identity | lowbits
-	Presize int    `json:"presize,omitempty"` // map/mapof presize hint; cache MinCapacity
-	Ctor    string `json:"ctor,omitempty"`    // cache: "new" (options) | "default" (NewDefault)
-	DefExp  int64  `json:"defexp,omitempty"`  // cache default expiration handed to the constructor
-	HasDef  bool   `json:"hasdef,omitempty"`  // pass DefExp (otherwise library default)
-	CB      bool   `json:"cb,omitempty"`      // install evicted callback at construction
-	Reenter uint8  `json:"reenter,omitempty"` // callback re-entry: 0 none, 1 Get(k) (must not return the evicted value), 2 Count(), 3 both
-	Cleanup int64  `json:"cleanup,omitempty"` // cleanup interval handed to constructor (virtual clock: ticker never fires)
-	Native  bool   `json:"native,omitempty"`  // natively parallel use: no callback attribution (it is per virtual thread)
+	Kind     string `json:"kind"`                // map | mapof | cache | cacheof
+	Key      string `json:"keytype,omitempty"`   // for *of kinds: int | string | struct
+	Hasher   string `json:"hasher,omitempty"`    // mapof only: "" default | const | samebucket | sameh2 | identity | lowbits
+	Presize  int    `json:"presize,omitempty"`   // map/mapof presize hint; cache MinCapacity
+	GrowOnly bool   `json:"grow_only,omitempty"` // map/mapof: xsync.WithGrowOnly() (internal option; never shrinks except on Clear)
+	Ctor     string `json:"ctor,omitempty"`      // cache: "new" (options) | "default" (NewDefault)
+	DefExp   int64  `json:"defexp,omitempty"`    // cache default expiration handed to the constructor
+	HasDef   bool   `json:"hasdef,omitempty"`    // pass DefExp (otherwise library default)
+	CB       bool   `json:"cb,omitempty"`        // install evicted callback at construction
+	Reenter  uint8  `json:"reenter,omitempty"`   // callback re-entry: 0 none, 1 Get(k) (must not return the evicted value), 2 Count(), 3 both
+	Cleanup  int64  `json:"cleanup,omitempty"`   // cleanup interval handed to constructor (virtual clock: ticker never fires)
+	Native   bool   `json:"native,omitempty"`    // natively parallel use: no callback attribution (it is per virtual thread)
 	// Alias maps small key ids to other ids for string-keyed containers (id -> "k<alias>"): lets a
 	// generator make hot keys out of strings found by a search (top-hash collisions). Recomputed per process.
 	Alias map[int]int `json:"-"`
@@ -44,6 +45,9 @@ func (s Spec) String() string {
 	}
 	if s.Hasher != "" {
 		x += " hasher=" + s.Hasher
+	}
+	if s.GrowOnly {
+		x += " growOnly"
 	}
 	if s.Presize != 0 {
 		x += fmt.Sprintf(" presize=%d", s.Presize)
@@ -438,7 +442,19 @@ func newMapOf[K comparable](s Spec, kc codec[K]) API {
 		if s.Presize != 0 {
 			opts = append(opts, xsync.WithPresize(s.Presize))
 		}
+		if s.GrowOnly {
+			opts = append(opts, xsync.WithGrowOnly())
+		}
 		a.raw = xsync.NewMapOfWithHasher[K, int](h, opts...)
+		a.m = a.raw
+		return a
+	}
+	if s.GrowOnly {
+		opts := []func(*xsync.MapConfig){xsync.WithGrowOnly()}
+		if s.Presize != 0 {
+			opts = append(opts, xsync.WithPresize(s.Presize))
+		}
+		a.raw = xsync.NewMapOf[K, int](opts...)
 		a.m = a.raw
 		return a
 	}
@@ -471,8 +487,8 @@ type cacheAd struct {
 	cb2  cache.EvictedCallback
 }
 
-func (a *cacheAd) Spec() Spec                { return a.spec }
-func (a *cacheAd) Release()                  { a.c = nil }
+func (a *cacheAd) Spec() Spec                 { return a.spec }
+func (a *cacheAd) Release()                   { a.c = nil }
 func (a *cacheAd) Table() TableStats          { return TableStats{} }
 func (a *cacheAd) Stats() (int64, int64, int) { return -1, -1, -1 }
 
@@ -660,8 +676,8 @@ type cacheOfAd[K comparable] struct {
 	cb2  cache.EvictedCallbackOf[K, int]
 }
 
-func (a *cacheOfAd[K]) Spec() Spec                { return a.spec }
-func (a *cacheOfAd[K]) Release()                  { a.c = nil }
+func (a *cacheOfAd[K]) Spec() Spec                 { return a.spec }
+func (a *cacheOfAd[K]) Release()                   { a.c = nil }
 func (a *cacheOfAd[K]) Table() TableStats          { return TableStats{} }
 func (a *cacheOfAd[K]) Stats() (int64, int64, int) { return -1, -1, -1 }
 
@@ -836,6 +852,15 @@ func New(s Spec) API {
 	switch s.Kind {
 	case "map":
 		a := &mapAd{spec: s, kc: strCodecAlias(s.Alias)}
+		if s.GrowOnly {
+			opts := []func(*xsync.MapConfig){xsync.WithGrowOnly()}
+			if s.Presize != 0 {
+				opts = append(opts, xsync.WithPresize(s.Presize))
+			}
+			a.raw = xsync.NewMap(opts...)
+			a.m = a.raw
+			return a
+		}
 		if s.Presize != 0 {
 			a.m = cache.NewMapPresized(s.Presize)
 		} else {
